@@ -95,6 +95,34 @@ theorem configure_shape (a : UInt16) (t : SignType) (script : List Reply) :
     rw [← config_is_type_block]
     exact ht.attempt_shape
 
+/-! ### The excluded region: 65 536 chunks or more in one transfer -/
+
+/-- If every chunk is met with silence, the 65 536th one overflows the controller's 16-bit chunk
+    counter: the model's explicit panic node (a debug-profile panic in the real code; the harness
+    confirms `PANIC` on both sides in the thorough tier). -/
+theorem sendChunks_overflow {α : Type} (ms : List Msg) (n : Nat) (k : Nat → Prog α)
+    (hn : n < 65536) (hlen : 65536 ≤ n + ms.length) (rest : List Reply) :
+    ((sendChunks ms n k).run (List.replicate (65536 - n) (.ok none) ++ rest)).2 = .panic .overflow := by
+  induction ms generalizing n with
+  | nil => simp at hlen; omega
+  | cons m ms ih =>
+    have e : 65536 - n = (65536 - (n + 1)) + 1 := by omega
+    rw [e, List.replicate_succ, List.cons_append]
+    simp only [sendChunks, Prog.run_send_ok, ↓reduceIte]
+    by_cases h1 : n + 1 ≥ 65536
+    · simp [h1]
+    · simp only [h1, ↓reduceIte]
+      exact ih (n + 1) (by omega) (by simp at hlen ⊢; omega)
+
+theorem transfer_overflow_panics (a : UInt16) (msgs : List Msg) (op : Op) (succ failS : State)
+    (n : Nat) (h : 65536 ≤ msgs.length) (rest : List Reply) :
+    ((transfer a msgs op succ failS n).run
+      (.ok (some (.ackOp a op)) :: (List.replicate 65536 (.ok none) ++ rest))).2 = .panic .overflow := by
+  cases n <;>
+    (unfold transfer expect
+     simp only [Prog.run_send_ok, ↓reduceIte]
+     exact sendChunks_overflow msgs 0 _ (by omega) (by omega) rest)
+
 -- Non-vacuity: a 96-byte page is 6 chunks at offsets 0..80; a 20-byte item ends with a short chunk.
 example : (itemMsgs (List.replicate 96 7)).length = 6 := by decide
 example : (itemMsgs (List.replicate 20 7))[1]? = some (.sendData 16 [7, 7, 7, 7]) := by decide
